@@ -144,7 +144,7 @@ pub fn run(env: &Env) -> Report {
         // "any number of earlier words": ONE context ends word after word (hundreds of distinct word parts, every way of ending in turn);
         // now and then the next word — a base with a suffix, typed key by key — is also typed into a brand-new context over the same user
         // directory: candidates, preselection and flag agree after every key
-        if ui % 8 == 3 {
+        if ui % (if env.quick() { 16 } else { 8 }) == 3 {
             let pools = super::common::WordPools::new(&env.data);
             let case = format!("c06-{}-long", ui);
             t.line(&format!("case {}", case));
@@ -152,7 +152,7 @@ pub fn run(env: &Env) -> Report {
             let mut opts = Opts::none(); opts.phonetic_suggestion = true; opts.smart_quote = ui % 16 == 3;
             if let Some(mut a) = Sess::new(&mut t, &env.data, "long", PHONETIC, opts, &xdg) {
                 a.follow_sel = false;
-                let nwords = if env.quick() { 90 } else { 800 };
+                let nwords = if env.quick() { 60 } else { 800 };
                 'words: for wi in 0..nwords {
                     let base = { let mut w = pools.word(&mut rng); let mut g = 0; while (!w.chars().all(|c| c.is_ascii_alphabetic()) || w.len() < 3) && g < 50 { w = pools.word(&mut rng); g += 1; } w };
                     if !base.chars().all(|c| c.is_ascii_alphabetic()) { continue; }
